@@ -1,9 +1,10 @@
 import ASV.Drv.J
 import ASV.Spec.Refine
 import ASV.Spec.HitFilter
+import ASV.Model.HitCallers
 import ASV.Generated.C13Docking
 namespace ASV.Drv.C13
-open Lean ASV ASV.Drv ASV.Refine ASV.HitFilter
+open Lean ASV ASV.Drv ASV.Refine ASV.HitFilter ASV.HitCallers
 
 def hitOfJson (j : Json) : R Hit := do
   return ⟨← asInt (← idx j 0), ← asInt (← idx j 1), ← asInt (← idx j 2), ← asInt (← idx j 3), ← asInt (← idx j 4)⟩
@@ -64,7 +65,7 @@ def handleRemOv (j : Json) : R Json := do
   let env ← envOfJson j
   let hits ← listOf hitOfJson (← fld j "hits")
   let impl ← optHitsOfJson (fldD j "impl" Json.null)
-  let m := removeOverlapping? env hits
+  let m := some (removeOverlapping env hits)
   let inputSorted := sortedByStart hits
   return jObj [
     ("model", match m with | some l => hitsToJson l | none => Json.null),
@@ -168,7 +169,9 @@ def handleEquiv (j : Json) : R Json := do
       let out := ids.filterMap fun i => hits.find? (fun h => h.uid == i)
       let v := equivSpec eq hits out
       jObj [("sublist", b (v.sublist && out.length == ids.length)), ("separated", b v.separated),
-            ("best", b v.bestKept), ("untouched", b v.untouched), ("ok", b (v.ok && out.length == ids.length))]
+            ("best", b v.bestKept), ("untouched", b v.untouched),
+            ("exact", b (ids == (specFilterB eq hits).map (·.uid))),
+            ("ok", b (v.ok && out.length == ids.length && ids == (specFilterB eq hits).map (·.uid)))]
     | none => Json.null
   let others ← listOf (listOf fhitOfJson) (fldD j "others" (Json.arr #[]))
   return jObj [
@@ -180,6 +183,57 @@ def handleEquiv (j : Json) : R Json := do
     ("groups", jArr ((overlappingGroups hits).map uids)),
     ("nontrivial", b (match m with | some l => l.length < hits.length | none => false))]
 
+/-! callers -/
+def handleCp (j : Json) : R Json := do
+  let cuts ← listOf asInt (← fld j "cut")
+  let eq ← listOf (listOf asInt) (← fld j "eq")
+  let genes ← listOf (listOf fhitOfJson) (← fld j "genes")
+  let out := genes.map fun g => findHmmerHitsGene (tableI cuts 0) eq g
+  return jObj [
+    ("model", jArr (out.map fun o => match o with | some l => uids l | none => Json.null)),
+    ("ties", jArr (genes.map fun g => b (hasTie g))),
+    ("nontrivial", b ((genes.zip out).any fun (g, o) => match o with | some l => l.length < g.length | none => false))]
+
+def rawHmmOfJson (j : Json) : R RawHmm := do
+  return ⟨⟨← asInt (← idx j 0), ← asInt (← idx j 1), ← asInt (← idx j 2), ← asInt (← idx j 3)⟩, ← asInt (← idx j 4)⟩
+
+def handleRunHmmer (j : Json) : R Json := do
+  let cuts ← listOf optInt (← fld j "cut")
+  let cut : Int → Option Int := fun i => if i < 0 then none else (cuts[i.toNat]?).getD none
+  let minScore ← intF j "min"
+  let maxEv ← intF j "maxev"
+  let genes ← listOf (listOf rawHmmOfJson) (← fld j "genes")
+  let out := genes.map fun g => runHmmerGene cut minScore maxEv g
+  return jObj [
+    ("model", jArr (out.map fun o => match o with
+      | .ok l => jObj [("ok", jArr (l.map hhitToJson))]
+      | .error e => jObj [("err", Json.str (herr e))])),
+    ("nontrivial", b ((genes.zip out).any fun (g, o) => match o with | .ok l => l.length < g.length | _ => false))]
+
+def handleDomains (j : Json) : R Json := do
+  let env ← envOfJson j
+  let lens ← listOf asInt (← fld j "L")
+  let genes ← listOf (listOf hitOfJson) (← fld j "genes")
+  let doms := (genes.zip lens).map fun (g, l) => findDomainsGene env l g
+  return jObj [
+    ("model", jArr (doms.map hitsToJson)),
+    ("motifs", jArr (genes.map fun g => hitsToJson (findAbMotifsGene env g))),
+    ("nontrivial", b ((genes.zip doms).any fun (g, d) => d.length < g.length && d.length > 0))]
+
+def handleSubtypes (j : Json) : R Json := do
+  let env ← envOfJson j
+  let target ← intF j "target"
+  let stripL ← listOf asInt (← fld j "strip")
+  let strip : Int → Int := fun i => tableI stripL i i
+  let existing ← listOf (listOf hitOfJson) (← fld j "existing")
+  let genes ← listOf (listOf hitOfJson) (← fld j "genes")
+  let pairs := existing.zip genes
+  return jObj [
+    ("model", jArr (pairs.map fun (e, g) => hitsToJson (findSubtypesGene env target strip e g))),
+    ("internal", jArr (pairs.map fun (e, g) =>
+      jArr ((e.filter fun d => d.prof == target).map fun d => hitsToJson (subtypeHits env strip g d)))),
+    ("nontrivial", b (pairs.any fun (e, g) => !(findSubtypesGene env target strip e g).isEmpty))]
+
 def handle (j : Json) : R Json := do
   match ← strF j "kind" with
   | "refine" => handleRefine j
@@ -190,6 +244,10 @@ def handle (j : Json) : R Json := do
   | "hmmer" => handleHmmer j
   | "multiple" => handleMultiple j
   | "equiv" => handleEquiv j
+  | "cp" => handleCp j
+  | "runhmmer" => handleRunHmmer j
+  | "domains" => handleDomains j
+  | "subtypes" => handleSubtypes j
   | k => throw s!"C13: unknown kind {k}"
 
 end ASV.Drv.C13
